@@ -254,7 +254,7 @@ class WirePart:
     kinds = ["wire", "cable", "multi"]
     serves = ["C10", "C08"]
     coq_imports = ["From ONL Require Import Base.Cmp Elem.Packet Elem.StoreQ Elem.Wire Elem.Cable."]
-    props_files = {"C10": ["Props/C10.v", "Props/C10_Bridge.v", "Props/C10_BridgeRun.v"], "C08": ["Props/C08_Wire.v"]}
+    props_files = {"C10": ["Props/C10.v", "Props/C10_Bridge.v", "Props/C10_BridgeRun.v", "Props/C10_Examples.v"], "C08": ["Props/C08_Wire.v"]}
 
     # ---- second tie: regenerate the translated body before the Coq build (fail closed) ----------------
     def pre_build(self, prop_id):
